@@ -13,7 +13,10 @@
     Persistence.  What a consumer of the crew's reports knows about a
     machine is its state (if one was reported) and its specification source
     (if one was reported); a machine whose state was never reported is in
-    the default state. *)
+    the default state.  A reported source that resolves to no specification
+    (neither inline nor a URL) stands for a machine without specification:
+    the store keeps the source as reported, what it says about the machine
+    is what the source resolves to ([resolved]). *)
 From Sheens Require Export Model.SioCrew.
 
 Inductive target : Type := TNone | TAll | TOne (s : mid) | TMany (l : list mid).
@@ -40,6 +43,7 @@ Definition addressed (can_see : mid -> bool) (msg : json) (m : mid) : bool :=
 
 Section Views.
 Variable S : Type.
+Variable resolves : S -> bool.
 
 (** machines that can be presented a message: the two service machines and
     every ordinary machine that has a specification *)
@@ -53,7 +57,7 @@ Definition live_view (c : crew S) (m : mid) : option (option S * mstate) :=
   option_map view_of_mach (aget m (machines S c)).
 
 Definition view_of_entry (e : entry S) : option S * mstate :=
-  (e_src S e, match e_state S e with Some s => s | None => default_state end).
+  (resolved S resolves (e_src S e), match e_state S e with Some s => s | None => default_state end).
 Definition store_view (store : list (mid * entry S)) (m : mid) : option (option S * mstate) :=
   option_map view_of_entry (aget m store).
 
